@@ -264,9 +264,34 @@ class _Obs:
         return {"nodes": st[0], "graph_attrs": st[1], "layers": st[2]}
 
 
+_ARGS = {}   # per-case cache: the SAME list object is passed again when a later bulk call has an equal argument
+
+
+def _bulk(key, items, flavour):
+    """the bulk argument of add_nodes_from / remove_nodes_from / add_edges_from / remove_edges_from / subgraph as the
+    container kind chosen by the op's optional trailing flavour (0 list, 1 tuple, 2 generator, 3 set where hashable);
+    returns (argument, underlying list, snapshot of it) — the list must be unchanged after the call"""
+    import copy
+    base = _ARGS.setdefault((key, repr(items)), items)
+    snap = copy.deepcopy(base)
+    if flavour == 1:
+        arg = tuple(base)
+    elif flavour == 2:
+        arg = (x for x in base)
+    elif flavour == 3:
+        try:
+            arg = set(base)
+        except TypeError:
+            arg = base
+    else:
+        arg = base
+    return arg, base, snap
+
+
 def _apply(objs, op, lab, N):
     """apply one op; returns (exception name or None, note)"""
     import networkx as nx
+    base = snap = None
     code, o = op[0], op[1]
     a = op[2:]
     if o >= len(objs) or objs[o] is None:
@@ -277,20 +302,24 @@ def _apply(objs, op, lab, N):
         if code == 0:
             G.add_node(lab(a[0]), **_adict(a[1]))
         elif code == 1:
-            G.add_nodes_from([lab(n) for n in a[0]], **_adict(a[1]))
+            arg, base, snap = _bulk("n", [lab(n) for n in a[0]], a[2] if len(a) > 2 else 0)
+            G.add_nodes_from(arg, **_adict(a[1]))
         elif code == 2:
             G.add_edge(lab(a[0]), lab(a[1]), et(a[2]), **_adict(a[3]))
         elif code == 3:
             eb = [((lab(u), lab(v), _adict(d)) if d else (lab(u), lab(v))) for u, v, d in a[0]]
-            G.add_edges_from(eb, et(a[1]))
+            arg, base, snap = _bulk("e3", eb, a[2] if len(a) > 2 else 0)
+            G.add_edges_from(arg, et(a[1]))
         elif code == 4:
             G.remove_node(lab(a[0]))
         elif code == 5:
-            G.remove_nodes_from([lab(n) for n in a[0]])
+            arg, base, snap = _bulk("n", [lab(n) for n in a[0]], a[1] if len(a) > 1 else 0)
+            G.remove_nodes_from(arg)
         elif code == 6:
             G.remove_edge(lab(a[0]), lab(a[1]), et(a[2]))
         elif code == 7:
-            G.remove_edges_from([(lab(u), lab(v)) for u, v in a[0]], et(a[1]))
+            arg, base, snap = _bulk("e2", [(lab(u), lab(v)) for u, v in a[0]], a[2] if len(a) > 2 else 0)
+            G.remove_edges_from(arg, et(a[1]))
         elif code == 8:
             G.clear_edges(et(a[0]))
         elif code == 9:
@@ -307,8 +336,10 @@ def _apply(objs, op, lab, N):
             G.clear()
         else:
             objs.append(None)
-            ns = [lab(n) for n in a[0] if lab(n) in G]
+            ns, base, snap = _bulk("n", [lab(n) for n in a[0] if lab(n) in G], 0)
             H = G.subgraph(ns)
+            if base != snap:
+                return None, "argument-mutated:subgraph"
             note = None
             # attributes in a subgraph are not a clause of C02: accept "dropped" or "carried", normalise to dropped
             for n, d in H.nodes(data=True):
@@ -327,7 +358,9 @@ def _apply(objs, op, lab, N):
             objs[-1] = H
             return None, note
     except Exception as e:  # noqa
-        return type(e).__name__, None
+        return type(e).__name__, ("argument-mutated:" + OPNAMES[code] if base != snap else None)
+    if base != snap:
+        return None, "argument-mutated:" + OPNAMES[code]
     return None, None
 
 
@@ -337,6 +370,7 @@ def run_impl(case):
     lab, inv = gr.labeler(case)
     N = case["N"]
     objs = [ADMG() if case["cls"] else pywhy_nx.MixedEdgeGraph()]
+    _ARGS.clear()
     steps = []
     for op in case["ops"]:
         nb = len(objs)
